@@ -389,6 +389,9 @@ type c06RaceCase struct {
 	Skips []string `json:"skips"` // per goroutine: "" or the Skip* kind called after its calls
 	Pre   bool     `json:"prerecorded"`
 	Mode  Mode     `json:"mode"`
+	// SharedMatchers: every JSON / YAML call of every goroutine passes the SAME matcher values (a package-level
+	// `var volatile = match.Any(...).ErrOnMissingPath(false)` listing JSON-style and YAML-style paths)
+	SharedMatchers bool `json:"shared_matcher_values,omitempty"`
 }
 
 func genC06Race(t *rapid.T) c06RaceCase {
@@ -401,6 +404,7 @@ func genC06Race(t *rapid.T) c06RaceCase {
 	if rapid.Bool().Draw(t, "updatemode") {
 		c.Mode = Mode{Update: "true"}
 	}
+	c.SharedMatchers = rapid.IntRange(0, 2).Draw(t, "sharedmatchers") == 0
 	return c
 }
 
@@ -409,6 +413,14 @@ func checkC06Race(c c06RaceCase) error {
 	defer os.RemoveAll(root)
 	spec := c.Spec
 	spec.Filename = ""
+	var shared []bothMatcher
+	if c.SharedMatchers {
+		rt := &matcherRT{}
+		shared = []bothMatcher{
+			rt.build(MatcherSpec{Kind: "any", Paths: []string{"$.metadata.uid", "metadata.uid", "$.a", "a", "$.k1", "k1"}, ErrMissing: boolp(false)}),
+			rt.build(MatcherSpec{Kind: "type", TypeName: "any", Paths: []string{"$.name", "name", "$.id", "id"}, ErrMissing: boolp(false)}),
+		}
+	}
 	run := func(mode Mode, variant int) {
 		newProcess(mode)
 		cfg := spec.build(root)
@@ -423,6 +435,9 @@ func checkC06Race(c c06RaceCase) error {
 				for _, call := range calls {
 					if variant == 1 && (call.API == "snap" || call.API == "ssnap") {
 						call.Vals = []Val{strVal("changed value")} // forces mismatches / updates in the second process
+					}
+					if shared != nil && (call.API == "json" || call.API == "sjson" || call.API == "yaml") && len(call.Matchers) == 0 {
+						call.prebuilt = shared
 					}
 					call.invoke(cfg, ft)
 				}
@@ -450,6 +465,10 @@ func checkC06Race(c c06RaceCase) error {
 func TestC06Race_SharedFile(t *testing.T) {
 	prop[c06RaceCase]{property: "C06", gen: genC06Race, check: checkC06Race,
 		classify: func(c c06RaceCase) ([]string, bool) {
-			return classifyC12Race(c12RaceCase{Spec: c.Spec, Tests: c.Tests})
+			cls, nt := classifyC12Race(c12RaceCase{Spec: c.Spec, Tests: c.Tests})
+			if c.SharedMatchers {
+				cls = append(cls, "shared_matcher_values")
+			}
+			return cls, nt
 		}}.run(t)
 }
